@@ -34,3 +34,34 @@ Fixpoint serializable (v : value) : bool :=
   | VList l => len_ok l && forallb serializable l
   | VMap l => len_ok l && nodup_keys l && forallb (fun kv => len_ok (fst kv) && serializable (snd kv)) l
   end.
+
+(* ------------------------------------------------------------------ the grammar of serialize texts *)
+(* Byte-exact: a text is the concatenation of its pieces, nothing else.  Numbers are one or more
+   decimal digits (leading zeros allowed, as strconv accepts them); an integer may carry one sign;
+   a string's declared length is its byte length; an array's declared count is its number of
+   key/value pairs.  What value an array denotes is decided by its keys ([arr_value]). *)
+Definition digits (ds : bytes) : Prop := ds <> [] /\ Forall (fun c => is_digit c = true) ds.
+Definition sign_text (sg : bytes) (neg : bool) : Prop :=
+  (sg = [] /\ neg = false) \/ (sg = [45] /\ neg = true) \/ (sg = [43] /\ neg = false).
+
+(* 0..n-1 integer keys in order: a list; otherwise a map keyed by the keys' names (a key that is
+   itself an array has no name: outside the model) *)
+Definition arr_value (kvs : list (value * value)) : option value :=
+  if sequential 0 kvs then Some (VList (map snd kvs))
+  else match build_map kvs [] with Some m => Some (VMap m) | None => None end.
+
+Inductive ser_text : bytes -> value -> Prop :=
+| st_null : ser_text [78; 59] VNull
+| st_false : ser_text [98; 58; 48; 59] (VBool false)
+| st_true : ser_text [98; 58; 49; 59] (VBool true)
+| st_int : forall sg neg ds z, sign_text sg neg -> digits ds -> int_of_text neg ds = Some z ->
+           ser_text ([105; 58] ++ sg ++ ds ++ [59]) (VInt z)
+| st_str : forall ds s, digits ds -> val_digits ds = N.of_nat (length s) -> val_digits ds <= max_int ->
+           ser_text ([115; 58] ++ ds ++ [58; 34] ++ s ++ [34; 59]) (VStr s)
+| st_arr : forall ds body kvs v, digits ds -> val_digits ds = N.of_nat (length kvs) ->
+           val_digits ds <= max_int -> pairs_text body kvs -> arr_value kvs = Some v ->
+           ser_text ([97; 58] ++ ds ++ [58; 123] ++ body ++ [125]) v
+with pairs_text : bytes -> list (value * value) -> Prop :=
+| pt_nil : pairs_text [] []
+| pt_cons : forall a b c k v r, ser_text a k -> ser_text b v -> pairs_text c r ->
+            pairs_text (a ++ b ++ c) ((k, v) :: r).
